@@ -227,6 +227,24 @@ impl Typer {
             }
         }
 
+        #[cfg(goml_verif)]
+        fn verif_kinds(constraints: &[Constraint]) -> (usize, usize, usize) {
+            let mut kinds = (0, 0, 0);
+            for constraint in constraints {
+                match constraint {
+                    Constraint::TypeEqual(..) => kinds.0 += 1,
+                    Constraint::Overloaded { .. } => kinds.1 += 1,
+                    Constraint::StructFieldAccess { .. } => kinds.2 += 1,
+                }
+            }
+            kinds
+        }
+        #[cfg(goml_verif)]
+        crate::verif_hooks::emit(|| {
+            let (eq, over, field) = verif_kinds(&constraints);
+            serde_json::json!({"ev": "solve_start", "eq": eq, "over": over, "field": field})
+        });
+
         while changed {
             changed = false;
             let mut still_pending = Vec::new();
@@ -387,6 +405,11 @@ impl Typer {
                 }
             }
             constraints.extend(still_pending);
+            #[cfg(goml_verif)]
+            crate::verif_hooks::emit(|| {
+                let (eq, over, field) = verif_kinds(&constraints);
+                serde_json::json!({"ev": "solve_round", "eq": eq, "over": over, "field": field, "changed": changed})
+            });
 
             if !changed && !constraints.is_empty() {
                 diagnostics.push(Diagnostic::new(
